@@ -11,6 +11,21 @@ M = 1000000
 # keys of recorded findings (known_findings.json)
 F1 = "F1-stale-manager-refails-forwarded-htlc"
 F2 = "F2-debug-assert-FreeDuplicateClaimImmediately-in-serialized-queue"
+F3 = "F3-debug-assert-found_blocker-duplicate-claim-after-close"
+
+
+def panic_key(msg):
+    """-> key of a recorded finding, None for an artefact of the test signer (see design/C02.md), else 'panic'"""
+    if "Non-event-generating_channel_freeing" in msg:
+        return F2
+    if "assertion_failed:_found_blocker" in msg:
+        return F3
+    if "can_only_sign_the_next_two_unrevoked_commitment_numbers" in msg:
+        # TestChannelSigner keeps its enforcement state in memory across the harness's restart: a
+        # revoke_and_ack that was built but withheld (monitor update in flight) and then lost with the crash
+        # leaves the signer believing the state revoked. Not a statement about the library.
+        return None
+    return "panic"
 
 
 def parse(path):
@@ -65,7 +80,7 @@ def judge(recs):
     V = []
     F = {"forwarded": 0, "c_behav": "?", "reloads": 0, "async_persists": 0, "onchain": 0, "fulfil_by_msg": 0,
          "b_checked": 0, "d_checked": 0, "fail_upstream": 0, "fulfil_upstream": 0, "fulfil_during_inflight_U": 0,
-         "reload_after_fulfil": 0, "dust": 0, "u_preimage_async": 0, "blocker_exercised": 0, "crash_in_window": 0, "a_result": "?", "learned_onchain": 0, "stuck": 0}
+         "reload_after_fulfil": 0, "dust": 0, "u_preimage_async": 0, "blocker_exercised": 0, "crash_in_window": 0, "a_result": "?", "learned_onchain": 0, "stuck": 0, "signer_artifact": 0}
     cfg = {}
     funding = {}
     h = None
@@ -105,7 +120,12 @@ def judge(recs):
             h = kv["hash"]
         elif kind == "PANIC":
             msg = kv.get("msg", "?")
-            V.append({"key": F2 if "Non-event-generating_channel_freeing" in msg else "panic", "judge": "harness/implementation panic", "why": msg[:400], "step": step})
+            pk = panic_key(msg)
+            if pk is None:
+                F["signer_artifact"] = 1
+                end = {"artifact": "1"}
+            else:
+                V.append({"key": pk, "judge": "harness/implementation panic", "why": msg[:400], "step": step})
         elif kind == "RELOADFAIL":
             V.append({"judge": "restart", "why": "B could not restart from its durable state: %s %s" % (kv.get("what"), kv.get("err", "")), "step": step})
         elif kind == "STUCK":
